@@ -81,7 +81,14 @@ pub fn handle(op: &str, a: &[&str]) -> Option<Resp> {
                 ["d", d] => {
                     let d = dec_doc(d)?;
                     let ok = d.iter().all(|p| p.iter().all(|(k, v)| docspec::valid_key(k) && canon_value(v) && !v.is_empty() && !v.starts_with('\n')));
-                    let paras: Vec<Paragraph> = d.into_iter().map(|p| p.into_iter().collect()).collect();
+                    let paras: Vec<Paragraph> = d.iter().cloned().map(|p| p.into_iter().collect()).collect();
+                    // a paragraph built from pairs IS that list of pairs (repeated names included)
+                    for (p, want) in paras.iter().zip(d.iter()) {
+                        let got: Items = p.items().collect();
+                        if ok && &got != want {
+                            return Some(Resp::with("START-DIFFERS".into(), Some(format!("a paragraph built from the pairs {:?} reads {:?}", want, got))));
+                        }
+                    }
                     (paras.into_iter().collect(), ok)
                 }
                 _ => return None,
@@ -340,6 +347,9 @@ fn start_states() -> Vec<String> {
         vec![vec![("A".into(), "b".into())]],
         vec![vec![("A".into(), "b".into()), ("B".into(), "l1\nl2".into())], vec![("C".into(), "d".into())]],
         vec![vec![("a".into(), "1".into()), ("c".into(), "2".into())]],
+        // repeated names: the built paragraph keeps every pair, in order (after seeded change C04-r9m1)
+        vec![vec![("A".into(), "1".into()), ("B".into(), "2".into()), ("A".into(), "3".into())]],
+        vec![vec![("C".into(), "x".into()), ("C".into(), "l1\nl2".into())], vec![("A".into(), "1".into()), ("A".into(), "1".into())]],
     ];
     for d in docs {
         v.push(format!("d.{}", enc_doc(&d)));
